@@ -2,11 +2,13 @@ SPECIFICATION MCSpec
 CONSTANTS
   Nil = Nil
   Locked = TRUE
+  CheckUnderLock = TRUE
   MaxCallsR1 = 2
   MaxCallsR2 = 2
   KindsR1 = {"lookup", "current"}
   KindsR2 = {"lookup", "current"}
   MaxAppends = 1
+  NUpdaters = 2
   VaaNames = {}
 INVARIANTS
   TypeOK
